@@ -70,6 +70,11 @@ def _run_script(comp: Any, o: dict, script: list, cname: str = 'cli0') -> None:
                 from vf import world
                 world.S.sleep(op[1])
                 v = None
+            elif k == 'bqcompile':
+                # a real bqskit.compile() on this (real) Compiler: C01's
+                # "number of runtime workers / schedule" quantifier
+                from vf import c01_world
+                v = c01_world.run_case(comp, op[1])
             else:
                 raise HarnessError(f'bad script op {op}')
             ev.append(list(op[:2]) + ['ok', v])
@@ -290,6 +295,7 @@ def register_judge(name: str, fn: Callable) -> None:
 def _import_judges() -> None:
     import vf.judges  # noqa: F401
     import vf.checks.c13  # noqa: F401  (registers the API-history judge)
+    import vf.c01_world  # noqa: F401  (registers the world-compile judge)
 
 
 def run_item(item: tuple) -> dict:
